@@ -449,7 +449,7 @@ def run(tier, seed):
     tasks_seq = [(["T23", "T23'", "T29"],), (["E37", "E37'"],), (["Params1024", "Params1024'"],), (["ParamsEd25519", "ParamsEd25519'"],)]
     # shipped
     stasks = []
-    for name in T.SHIPPED:
+    for name in T.SHIPPED + T.WIDE:
         inst, why = T.try_get(name)
         if inst is None:
             acc.degrade("%s unavailable: %s" % (name, why))
